@@ -20,7 +20,7 @@ CFG = dict(
     rule="honest traffic produced by RUNNING n real controllers (n=4,7; 7 network scenarios) and forged Byzantine traffic with real signatures, replayed to a real "
          "instance / controller with every single-field mutation (type, height, round, root, signers, signature, justifications incl. nested, full data, identifier, "
          "data round; re-signed or not), duplicates, reorderings, drops, extra timeouts, force-stop, other-height ops, compaction (none / runner-style / after every "
-         "message / random, both policies); every op runs on the real code and on the Lean model; distinct+non-trivial = (op kind, message type, guard tag, decided?, n)",
+         "message / random, both policies); every op runs on the real code and on the Lean model; distinct+non-trivial = (op kind, message type, guard tag, decided?, n) PRODUCTION-CONFIG share: in 25–35 % of the cases (and directed ones) the node objects are the ones a real node builds — operator/validator.SetupRunners(validator.Options{…, non-nil MessageValidator}) → attester runner → QBFTController, with the production ProposerF closure, SignatureVerification flag, ssv-spec AttesterValueCheckF, default domain (injected by SetDefaultDomain) and identifier; only Timer / Network / Storage are swapped for the recorders (harness/cmd/qbft/prodcfg.go; consensus values are valid attester ConsensusData).",
     trusted_base=["abstraction function of the harness (harness/cmd/qbft/abs.go): ids interned per case, sigOk/malformed computed by the real functions",
                   "ssv-spec v0.3.7 qbft.Instance from the module cache is the reference of the equality clause",
                   "BLS signatures / SHA-256 abstracted as sigOk and injective ids"],
